@@ -406,6 +406,14 @@ pub fn text_match(cell: &Cell, got: Option<&[u8]>) -> Result<(), String> {
     if let Cell::Ref(inner) = cell {
         return text_match(&norm_ref(inner), got);
     }
+    if let Cell::OrAnyTemporal(inner) = cell {
+        // the real cell, or whatever text the out-of-domain date was rendered as
+        return match (text_match(inner, got), got) {
+            (Ok(()), _) => Ok(()),
+            (Err(_), Some(g)) if !g.is_empty() && g.len() < 40 && g.iter().all(|b| b.is_ascii_digit() || b"+-: .".contains(b)) => Ok(()),
+            (Err(e), _) => Err(e),
+        };
+    }
     let is_null = matches!(cell, Cell::Null(_) | Cell::Myc(MycV::Null));
     let g = match (is_null, got) {
         (true, None) => return Ok(()),
@@ -550,6 +558,14 @@ fn norm_time(body: &[u8]) -> Option<(bool, u128)> {
 pub fn bin_match(cell: &Cell, col: &DecCol, got: &BinVal) -> Result<(), String> {
     if let Cell::Ref(inner) = cell {
         return bin_match(&norm_ref(inner), col, got);
+    }
+    if let Cell::OrAnyTemporal(inner) = cell {
+        // the real cell, or any well-formed temporal value (the out-of-domain date, as encoded)
+        return match (bin_match(inner, col, got), got) {
+            (Ok(()), _) => Ok(()),
+            (Err(_), BinVal::Date(b)) if matches!(b.len(), 0 | 4 | 7 | 11) => Ok(()),
+            (Err(e), _) => Err(e),
+        };
     }
     let is_null = matches!(cell, Cell::Null(_) | Cell::Myc(MycV::Null));
     if is_null {
@@ -696,6 +712,7 @@ pub fn cell_kind(c: &Cell) -> &'static str {
         Cell::Myc(MycV::Double(_)) => "Value::Double",
         Cell::Myc(MycV::Date(..)) => "Value::Date",
         Cell::Myc(MycV::Time(..)) => "Value::Time",
+        Cell::OrAnyTemporal(_) => "(real cell or out-of-domain date)",
     }
 }
 
@@ -1310,6 +1327,7 @@ fn contra_name(plan: &Plan, i: usize) -> String {
                         Contra::NullIntoNotNull { .. } => "null into not null",
                         Contra::WrongKind { .. } => "wrong kind",
                         Contra::RefusedRetry { .. } => "refused value retried",
+                        Contra::OfferedMaybe { .. } => "out-of-domain value offered",
                     }
                     .to_string();
                 }
